@@ -12,7 +12,7 @@ for d in sorted(os.listdir(ROOT)):
   r = res.get(d, {})
   meta = {
     'property': d[:3],
-    'round': 2 if d[3] == 'b' else 1,
+    'round': {'b': 2, 'c': 3}.get(d[3], 1),
     'files_changed': files,
     'what_it_breaks_and_what_it_needs_to_manifest': ' '.join(notes.split())[:1500],
     'written_by': 'fresh sub-agent given only the property text and a scratch worktree',
